@@ -158,6 +158,9 @@ func newTr(w *World, sp *Specs, ms *ModSets, fn *ssa.Function) *Tr {
 		edgeCond: map[[2]int]Term{}, backEdge: map[[2]int]bool{}, loops: map[*ssa.BasicBlock]*loopInfo{},
 		ord: map[string]int{}, callOrd: map[string]int{}, trusted: map[string]bool{}, ghostAt: map[string][]*ghostStmt{}}
 	t.ct = sp.Contracts[t.key]
+	if t.ct == nil && sp.Implicit != nil {
+		t.ct = sp.Implicit[t.key]
+	}
 	t.c.regComp(compAlloc, SInt)
 	return t
 }
